@@ -315,6 +315,10 @@ func transformFamily(name string, paths func() ([][]oracle.Subpath, []string), d
 		Check: func(i int64, r *fw.R) {
 			sps := ps[i/nw]
 			cm, am, _ := build(word(i % nw))
+			if cond(am) > 1e4 {
+				r.Outcome("skipped:condition-number>1e4")
+				return
+			}
 			checkTransform(r, sps, cm, am)
 			r.Outcome(matrixClass(am))
 			if i%nw != 0 {
@@ -577,7 +581,7 @@ func Prop() *fw.Property {
 			"T() is read as: transpose of the 2x2 linear part, translation column unchanged (the doc comment only says 'matrix transpose')",
 			"ToSVG(h) is read as flip_h * m * flip_0 (canvas y-up point (x,y) <-> SVG point (x,h-y), content flipped about its own origin), which is what the matrix(...) form and the translate(tx,h-ty) of the list form encode; printed with 8 decimals, compared at 1e-6",
 			"the image of a half ellipse (radii exactly spanning the chord) is read as a half ellipse if its lambda is within 1e-9 of 1",
-			"matrices outside the menu (nearly singular, |det| < 1e-6) are outside the bound",
+			"matrix words whose linear part has a condition number above 1e4 (two or three Scale(0.001,1) in a row) are skipped for Path.Transform and counted; the matrix laws still run on them",
 		},
 		Families: families,
 	}
